@@ -154,16 +154,20 @@ def i_tz64(ex, fr, ins, name, args, st, k):
 # sync/atomic on words and pointers: sequentially consistent single-word operations.  Every use is recorded in the
 # trace as an ('access', kind, address, line) event for the access discipline (C14).
 # ---------------------------------------------------------------------------------------------------------------
-def _atomic_access(ex, st, kind, p, ins):
-    st.trace.append(('access', kind, p, ex.line(ins), tuple(getattr(st, 'held', ()))))
-    ex.on_access(st, kind, p, ins)
+def _atomic_access(ex, st, kind, p, ins, fr=None):
+    reg = None
+    try:
+        reg = ins['call']['args'][0].get('n')
+    except Exception:
+        pass
+    ex.on_access(st, kind, p, ins, fr, reg)
 
 
 def _mk_atomic_load(sortname, tname):
     def f(ex, fr, ins, name, args, st, k):
         p = args[0].x
         ex.check_nonnil(st, p, ins, 'atomic-load')
-        _atomic_access(ex, st, 'atomic-load', p, ins)
+        _atomic_access(ex, st, 'atomic-load', p, ins, fr)
         t = ins['type']
         k(st, ex.load(st, t, p))
     return f
@@ -173,7 +177,7 @@ def _mk_atomic_store(tname):
     def f(ex, fr, ins, name, args, st, k):
         p = args[0].x
         ex.check_nonnil(st, p, ins, 'atomic-store')
-        _atomic_access(ex, st, 'atomic-store', p, ins)
+        _atomic_access(ex, st, 'atomic-store', p, ins, fr)
         ex.on_store(fr, ins, st, args[0], args[1])
         ex.store(st, p, args[1])
         k(st, None)
@@ -183,7 +187,7 @@ def _mk_atomic_store(tname):
 def _atomic_add(ex, fr, ins, name, args, st, k):
     p = args[0].x
     ex.check_nonnil(st, p, ins, 'atomic-add')
-    _atomic_access(ex, st, 'atomic-rmw', p, ins)
+    _atomic_access(ex, st, 'atomic-rmw', p, ins, fr)
     t = ins['type']
     old = ex.load(st, t, p)
     new = V(t, old.x + args[1].x)
@@ -194,7 +198,7 @@ def _atomic_add(ex, fr, ins, name, args, st, k):
 def _atomic_cas(ex, fr, ins, name, args, st, k):
     p = args[0].x
     ex.check_nonnil(st, p, ins, 'atomic-cas')
-    _atomic_access(ex, st, 'atomic-rmw', p, ins)
+    _atomic_access(ex, st, 'atomic-rmw', p, ins, fr)
     et = ex.prog.under(args[0].t)[1]['elem']
     cur = ex.load(st, et, p)
     eq = ex.eq_vals(cur, V(et, args[1].x))
